@@ -6,6 +6,7 @@ fn main() {
     match args[1].as_str() {
         "c05_peerstate_closed" => c05_peerstate_closed(&mut nd),
         "c05_manager_established" => c05_manager_established(&mut nd),
+        "c15_response_step" => c15_response_step(&mut nd),
         "c15_find_node_step" => c15_find_node_step(&mut nd),
         "c15_get_record" => c15_get_record(&mut nd),
         "c15_get_providers" => c15_get_providers(&mut nd),
@@ -27,6 +28,7 @@ fn main() {
         "c10_store_addresses" => c10_store_addresses(&mut nd),
         "c05_address_shapes" => c05_address_shapes(&mut nd),
         "c05_manager_steps" => c05_manager_steps(&mut nd),
+        "c05_manager_loop" => c05_manager_loop(&mut nd),
         "c05_dial_address" => c05_dial_address(&mut nd),
         "c16_dial_ledger" => c16_dial_ledger(&mut nd),
         "c16_put_to_targets" => c16_put_to_targets(&mut nd),
